@@ -14,3 +14,9 @@ TRUSTED_BASE = [
 ]
 ASSUMPTIONS = ["fee rate in [0,1] (enforced by MsgUpdateSwapFeeParams.ValidateBasic)", "ratio-shifting running rate >= 0"]
 UNPROVED = []
+MANIFEST = {
+    "text": "Lean 4 theorems over an exact model of the swap calculators and the swap handler (bounds for every depth, amount, fee and rate; exact settlement), tied to the Go code by differential execution of the real functions and by evaluating the theorems' own decidable predicates on the implementation's outputs.",
+    "note": "Trusted: Lean kernel (+propext, Classical.choice, Quot.sound), hand-written model tied only by the correspondence run, harness/driver parsing, math/big and sdk number types, x/bank (modelled).",
+    "technique": "Lean 4 proof + differential correspondence (model vs real Go)",
+    "design_ref": "4/C03",
+}
